@@ -55,8 +55,26 @@ def gen_case(rng, tier):
     return {'cfg': cfg, 'files': [stmts], 'start': 0, 'end': None, 'fill': 0, 'seed': rng.randrange(1 << 30), 'nobin': nobin}
 
 
+def gen_huge(rng):
+    """size: ONE line of more than 64 KiB (it covers whole 4 KiB / 64 KiB blocks of the address space) and a short line that
+    lies wholly inside it, far from both of its ends - or just behind its end (the disjoint control)"""
+    cfg = {'bits': rng.choice([18, 20, 24]), 'little': False, 'regs': ['ra', 'rb'], 'preZones': [], 'preConsts': [], 'preData': []}
+    a = rng.choice([0x8000, 0x8000, 0xFFF0, 0x10000, 0x123])
+    n = rng.choice([0x20000, 0x20000, 0x18001, 0x2FFFF])
+    big = [{'k': 'org', 'e': ('num', a)}, {'k': 'fill', 'cnt': ('num', n), 'val': ('num', rng.randint(1, 255))}]
+    # (disjoint controls of this size are left out: the model's address map mirrors the dictionary of the real code entry by
+    # entry and takes minutes for 10**5 bytes; the ordinary cases have disjoint controls in plenty)
+    where = rng.choice(['middle', 'middle', 'middle', 'near-start', 'near-end', 'last-byte'])
+    at = a + {'middle': rng.choice([0x10000, min(n - 8, 0x10000 + rng.randint(0, 0xFFF0)), n // 2]), 'near-start': rng.randint(0, 0x200),
+              'near-end': n - rng.randint(5, 0x200), 'last-byte': n - 1}[where]
+    small = [{'k': 'org', 'e': ('num', at)}, {'k': 'data', 'w': 1, 'vals': [('num', 1), ('num', 2), ('num', 3), ('num', 4)]}]
+    stmts = big + small if rng.random() < 0.5 else small + big
+    return {'cfg': cfg, 'files': [stmts], 'start': 0, 'end': None, 'fill': 0, 'seed': rng.randrange(1 << 30), 'huge': where}
+
+
 def generate(rng, tier):
-    return [gen_case(rng, tier) for _ in range(500 if tier == 'quick' else 12000)]
+    n = 500 if tier == 'quick' else 12000
+    return [gen_case(rng, tier) for _ in range(n)] + [gen_huge(rng) for _ in range(n // 60)]
 
 
 def judge(case, ir, mr):
@@ -77,6 +95,8 @@ def judge(case, ir, mr):
                     'detail': f'model/spec assembles, the run without a binary image fails: {str(ir.get("msg"))[:200]}; ' + det}
         tags.append('spec:overlap' if mr.get('overlapSpec') else 'spec:disjoint')
         return {'verdict': Verdict.OK, 'nontrivial': mr.get('overlapSpec') is not None, 'tags': tags, 'detail': det[:300]}
+    if case.get('huge'):
+        tags.append('line-of-more-than-64KiB:' + case['huge'])
     bad, actual, det = LB.base_judge(case, ir, mr, tags, mt)
     ov = mr.get('overlapSpec')
     lines = mr.get('lines') or []
